@@ -15,11 +15,16 @@ package main
 // after the whole history has been ingested).
 // 8th field of a submission = injected store failure for that Add: b<k> the k-th write call (UpdateState /
 // AddHeaderToDatabase, 0-based) fails without happening, a<k> it happens and then reports an error.
+// A token L<first id>,<prev>,<count>,<bits> stands for a run of <count> headers ingested back to back: ids
+// first..first+count-1, each on top of the previous one (the first on <prev>), version 1, merkle id+100000,
+// timestamp 1600000000+i, nonce i  (long runs: a hanging / held channel must not stop ingestion at any queue size).
+// beh additionally: hang (held on a gate that is NEVER opened before the final snapshot), late (webhook target
+// flushes its 200 status first and writes the body later; the harness paces ingestion by the deliveries).
 // n only steers the schedule the MODEL is run with (the implementation's schedule is the Go runtime's).
 //
 // observable:
 //
-//	<step>;<step>...|<final rows>|pre=<ch0 events>/<ch1 events>...|fin=<...>|ing=<ok|blocked>
+//	<step>;<step>...|<final rows>|pre=<ch0 events>/<ch1 events>...|fin=<...>|ing=<ok|ADD-BLOCKED@i>
 //
 // step = outcome, for a stored header followed by "=<row as read back from the table right after Add>";
 // events of one channel: sorted canonical strings joined by ','.
@@ -93,30 +98,45 @@ func (f *c11Faulty) UpdateState(hs []chainhash.Hash, st domains.HeaderState) err
 
 type c11Spec struct {
 	Kind string // R | W | H | C
-	Beh  string // ok | err | slow
+	Beh  string // ok | err | slow | hang | late
 }
 
 type c11Rec struct {
 	spec   c11Spec
 	mat    *Mat
 	gate   chan struct{}
+	hang   chan struct{} // opened only when the case is over (cleanup); what arrives then is discarded
 	parked *int32
 	mu     sync.Mutex
 	got    []string
+	dead   bool
 	closer func()
 }
 
 func (r *c11Rec) hold() {
-	if r.spec.Beh == "slow" {
+	switch r.spec.Beh {
+	case "slow":
 		atomic.AddInt32(r.parked, 1)
 		<-r.gate
+		atomic.AddInt32(r.parked, -1)
+	case "hang":
+		atomic.AddInt32(r.parked, 1)
+		<-r.hang
 		atomic.AddInt32(r.parked, -1)
 	}
 }
 
 func (r *c11Rec) record(s string) {
 	r.mu.Lock()
-	r.got = append(r.got, s)
+	if !r.dead {
+		r.got = append(r.got, s)
+	}
+	r.mu.Unlock()
+}
+
+func (r *c11Rec) kill() {
+	r.mu.Lock()
+	r.dead = true
 	r.mu.Unlock()
 }
 
@@ -223,6 +243,37 @@ type c11Case struct {
 	N      int
 	H      *History
 	Faults map[int]c11Fault // by submission index
+	Hist   string           // the history part as written (kept when it contains L tokens)
+}
+
+// c11Expand replaces L tokens by the submissions they stand for.
+func c11Expand(tok string) ([]string, error) {
+	p := strings.Split(tok[1:], ",")
+	if len(p) != 4 {
+		return nil, fmt.Errorf("bad run token %q", tok)
+	}
+	var n [4]int64
+	for i := range p {
+		v, err := strconv.ParseInt(p[i], 10, 64)
+		if err != nil {
+			return nil, err
+		}
+		n[i] = v
+	}
+	first, prev, count, bits := n[0], n[1], n[2], n[3]
+	if count < 0 || count > 100000 {
+		return nil, fmt.Errorf("bad run length in %q", tok)
+	}
+	out := make([]string, 0, count)
+	for i := int64(0); i < count; i++ {
+		id := first + i
+		pr := id - 1
+		if i == 0 {
+			pr = prev
+		}
+		out = append(out, fmt.Sprintf("%d,%d,%d,1,%d,%d,%d", id, pr, bits, id+100000, 1600000000+i, i))
+	}
+	return out, nil
 }
 
 func c11Parse(line string) (*c11Case, error) {
@@ -266,6 +317,16 @@ func c11Parse(line string) (*c11Case, error) {
 			toks = append(toks, tok)
 			continue
 		}
+		if strings.HasPrefix(tok, "L") {
+			ex, err := c11Expand(tok)
+			if err != nil {
+				return nil, err
+			}
+			toks = append(toks, ex...)
+			idx += len(ex)
+			k.Hist = hist
+			continue
+		}
 		p := strings.Split(tok, ",")
 		if len(p) == 8 {
 			fs := p[7]
@@ -290,10 +351,21 @@ func c11Parse(line string) (*c11Case, error) {
 	return k, nil
 }
 
+func c11ChanStr(chans []c11Spec) string {
+	var cs []string
+	for _, c := range chans {
+		cs = append(cs, c.Kind+":"+c.Beh)
+	}
+	return strings.Join(cs, ",")
+}
+
 func (k *c11Case) Line() string {
 	var cs []string
 	for _, c := range k.Chans {
 		cs = append(cs, c.Kind+":"+c.Beh)
+	}
+	if k.Hist != "" {
+		return fmt.Sprintf("c=%s/n=%d|%s", strings.Join(cs, ","), k.N, k.Hist)
 	}
 	base := k.H.Line()
 	toks := strings.Split(base, ";")
@@ -318,7 +390,9 @@ type c11Env struct {
 	base      int
 	watchdog  time.Duration
 	baseBumps int
-	held      int // deliveries parked at the gate when ingestion had finished, over all cases
+	ncase     int
+	loose     bool // goroutine counting abandoned for the rest of the run
+	held      int  // deliveries parked at the gate when ingestion had finished, over all cases
 }
 
 func (e *c11Env) rowAt(m *Mat, hash string) string {
@@ -349,6 +423,9 @@ func (e *c11Env) rowAt(m *Mat, hash string) string {
 // a new case starts only when the count is back there (a leftover goroutine of the previous case would
 // otherwise hide one in-flight delivery of this case).
 func (e *c11Env) baseline() int {
+	if e.loose {
+		return runtime.NumGoroutine()
+	}
 	if e.base == 0 {
 		time.Sleep(20 * time.Millisecond)
 		e.base = runtime.NumGoroutine()
@@ -365,21 +442,34 @@ func (e *c11Env) baseline() int {
 		if time.Now().After(deadline) {
 			e.base = n // something permanent was started in between
 			e.baseBumps++
+			e.c.Meta("c11_bump_at", fmt.Sprintf("case %d base %d now %d", e.ncase, e.base, n))
+			e.degrade()
 			return e.base
 		}
 		runtime.Gosched()
 	}
 }
 
+// degrade: goroutine counting stops being usable when the implementation keeps goroutines of its own alive
+// (e.g. one delivery goroutine per channel).  After two such incidents the rest of the run waits for the
+// implementation's own number of successes per channel plus a short grace period instead - every wait bounded.
+func (e *c11Env) degrade() {
+	if e.qTimeout+e.baseBumps >= 2 && !e.loose {
+		e.loose = true
+		e.c.Meta("c11_loose_quiescence", "goroutine counting abandoned (the implementation keeps goroutines alive); waiting by delivery counts + grace period")
+	}
+}
+
 // quiesce waits until every goroutine started since the baseline has finished or is parked at the gate.
 func (e *c11Env) quiesce(baseline int, parked *int32, extra func() bool) bool {
-	deadline := time.Now().Add(10 * time.Second)
+	deadline := time.Now().Add(2 * time.Second)
 	for i := 0; ; i++ {
 		if runtime.NumGoroutine()-int(atomic.LoadInt32(parked)) <= baseline && (extra == nil || extra()) {
 			return true
 		}
 		if time.Now().After(deadline) {
 			e.qTimeout++
+			e.degrade()
 			return false
 		}
 		if i < 200 {
@@ -390,7 +480,10 @@ func (e *c11Env) quiesce(baseline int, parked *int32, extra func() bool) bool {
 	}
 }
 
+func c11Held(beh string) bool { return beh == "slow" || beh == "hang" }
+
 func (e *c11Env) run(k *c11Case) (string, error) {
+	e.ncase++
 	m, err := Materialize(k.H)
 	if err != nil {
 		return "", err
@@ -401,11 +494,13 @@ func (e *c11Env) run(k *c11Case) (string, error) {
 	// a fresh REAL Notifier with this case's channels, wired into a fresh chain service
 	nt := notification.NewNotifier()
 	gate := make(chan struct{})
+	hang := make(chan struct{})
 	var parked int32
 	recs := make([]*c11Rec, 0, len(k.Chans))
 	noisy := false
+	var paced *c11Rec
 	for _, sp := range k.Chans {
-		r := &c11Rec{spec: sp, mat: m, gate: gate, parked: &parked}
+		r := &c11Rec{spec: sp, mat: m, gate: gate, hang: hang, parked: &parked}
 		switch sp.Kind {
 		case "R":
 			nt.AddChannel(c11Raw{r})
@@ -419,24 +514,55 @@ func (e *c11Env) run(k *c11Case) (string, error) {
 		default:
 			return "", fmt.Errorf("unknown channel kind %q", sp.Kind)
 		}
+		if sp.Beh == "late" {
+			paced = r
+		}
 		recs = append(recs, r)
 	}
+	gateOpen, hangOpen := false, false
+	openGate := func() {
+		if !gateOpen {
+			gateOpen = true
+			close(gate)
+		}
+	}
 	defer func() {
+		// the case is over: whatever a hanging channel still receives is not part of the observation
+		for _, r := range recs {
+			if r.spec.Beh == "hang" {
+				r.kill()
+			}
+		}
+		openGate()
+		if !hangOpen {
+			hangOpen = true
+			close(hang)
+		}
 		for _, r := range recs {
 			if r.closer != nil {
 				r.closer()
 			}
+		}
+		// let the released goroutines go away before the next case takes its baseline (bounded)
+		deadline := time.Now().Add(2 * time.Second)
+		for atomic.LoadInt32(&parked) > 0 && time.Now().Before(deadline) {
+			time.Sleep(200 * time.Microsecond)
 		}
 	}()
 	e.s.Services.Notifier = nt
 	e.s.SetForbidden(m.ForbiddenHashes())
 	e.faulty.arm(0, 0)
 
-	baseline := e.baseline()
+	baseline := runtime.NumGoroutine()
+	if !noisy {
+		baseline = e.baseline()
+	}
 	steps := make([]string, len(k.H.Subs))
+	var progress int64 // number of Adds that have returned
 	done := make(chan struct{})
 	go func() {
 		defer close(done)
+		stored := 0
 		for i := range k.H.Subs {
 			if f, ok := k.Faults[i]; ok {
 				e.faulty.arm(f.Mode, f.K)
@@ -446,19 +572,56 @@ func (e *c11Env) run(k *c11Case) (string, error) {
 			o := AddOutcome(e.s, m.Src[i])
 			if strings.HasPrefix(o, "S") {
 				o += "=" + e.rowAt(m, m.Hash[k.H.Subs[i].ID].String())
+				stored++
 			}
 			steps[i] = o
+			atomic.StoreInt64(&progress, int64(i+1))
+			if paced != nil {
+				// one delivery at a time on the paced channel (bounded wait), so that what one delivery does
+				// to the channel's own state is visible to the next
+				deadline := time.Now().Add(time.Second)
+				for paced.count() < stored && time.Now().Before(deadline) {
+					time.Sleep(time.Millisecond)
+				}
+				time.Sleep(40 * time.Millisecond)
+			}
 		}
 		e.faulty.arm(0, 0)
 	}()
+	// watchdog per Add: an Add that does not return within e.watchdog is an observable, not a hang
 	ing := "ok"
-	select {
-	case <-done:
-	case <-time.After(e.watchdog):
-		// ingestion did not finish while the slow channels were held
-		ing = "blocked"
-		close(gate)
-		<-done
+	abandoned := false
+	last, lastAt := int64(0), time.Now()
+	tick := time.NewTicker(5 * time.Millisecond)
+wait:
+	for {
+		select {
+		case <-done:
+			break wait
+		case <-tick.C:
+			p := atomic.LoadInt64(&progress)
+			if p != last {
+				last, lastAt = p, time.Now()
+			} else if time.Since(lastAt) > e.watchdog {
+				ing = fmt.Sprintf("ADD-BLOCKED@%d", p)
+				// release everything so that the blocked Add can return; bounded wait for the rest
+				openGate()
+				hangOpen = true
+				close(hang)
+				select {
+				case <-done:
+				case <-time.After(10 * time.Second):
+					abandoned = true
+				}
+				break wait
+			}
+		}
+	}
+	tick.Stop()
+	if abandoned {
+		// the ingestion goroutine is lost inside the implementation: report what is known and stop the run
+		n := int(atomic.LoadInt64(&progress))
+		return fmt.Sprintf("%s|ABANDONED|pre=|fin=|ing=%s", strings.Join(steps[:n], ";"), ing), errC11Stop
 	}
 	nStored := 0
 	for _, st := range steps {
@@ -470,20 +633,27 @@ func (e *c11Env) run(k *c11Case) (string, error) {
 	settle := func(final bool) {
 		want := func() bool {
 			for _, r := range recs {
+				if r.spec.Beh == "hang" && !hangOpen {
+					continue
+				}
 				if (final || r.spec.Beh != "slow") && r.count() < nStored {
 					return false
 				}
 			}
 			return true
 		}
-		if noisy {
-			// real network clients: goroutine counting is meaningless; wait for the expected deliveries,
-			// then leave time for unexpected ones
-			deadline := time.Now().Add(5 * time.Second)
-			for !want() && time.Now().Before(deadline) {
-				time.Sleep(2 * time.Millisecond)
+		if noisy || e.loose {
+			// real network clients / implementation-owned goroutines: goroutine counting is meaningless; wait
+			// for the expected deliveries (bounded), then leave time for unexpected ones
+			lim, grace := 5*time.Second, 60*time.Millisecond
+			if !noisy {
+				lim, grace = 300*time.Millisecond, 15*time.Millisecond
 			}
-			time.Sleep(60 * time.Millisecond)
+			deadline := time.Now().Add(lim)
+			for !want() && time.Now().Before(deadline) {
+				time.Sleep(time.Millisecond)
+			}
+			time.Sleep(grace)
 			return
 		}
 		defer func() {
@@ -494,8 +664,18 @@ func (e *c11Env) run(k *c11Case) (string, error) {
 			}
 		}()
 		if final {
-			// the gate is open: nothing may stay parked
-			e.quiesce(baseline, &parked, func() bool { return atomic.LoadInt32(&parked) == 0 })
+			// the gate is open: only deliveries of hanging channels may stay parked
+			nh := 0
+			for _, r := range recs {
+				if r.spec.Beh == "hang" && !hangOpen {
+					nh++
+				}
+			}
+			if nh == 0 {
+				e.quiesce(baseline, &parked, func() bool { return atomic.LoadInt32(&parked) == 0 })
+			} else {
+				e.quiesce(baseline, &parked, func() bool { return int(atomic.LoadInt32(&parked)) <= nh*nStored })
+			}
 		} else {
 			e.quiesce(baseline, &parked, nil)
 		}
@@ -510,9 +690,7 @@ func (e *c11Env) run(k *c11Case) (string, error) {
 		return strings.Join(parts, "/")
 	}
 	pre := snap()
-	if ing == "ok" {
-		close(gate)
-	}
+	openGate()
 	settle(true)
 	fin := snap()
 	_, _, rows, err := StatesAndTip(e.s, m)
@@ -634,9 +812,10 @@ func runC11x(c *Ctx) error {
 		return err
 	}
 	defer s.Close()
-	env := &c11Env{c: c, s: s, faulty: faulty, watchdog: 10 * time.Second}
+	// an Add that has not returned after this long is reported as ADD-BLOCKED@i (one Add takes well under a millisecond)
+	env := &c11Env{c: c, s: s, faulty: faulty, watchdog: 5 * time.Second}
 	if c.Only != "" {
-		env.watchdog = 3 * time.Second // replay / shrinking of one short history
+		env.watchdog = 2 * time.Second // replay / shrinking of one case
 	}
 	seen := map[string]bool{}
 	do := func(k *c11Case, tag string) error {
@@ -646,7 +825,7 @@ func runC11x(c *Ctx) error {
 		}
 		seen[line] = true
 		obs, err := env.run(k)
-		if err != nil {
+		if err != nil && !(errors.Is(err, errC11Stop) && obs != "") {
 			return fmt.Errorf("case %s: %w", line, err)
 		}
 		c.Case(line, obs)
@@ -658,7 +837,7 @@ func runC11x(c *Ctx) error {
 			c.Count(cl)
 		}
 		c.Count(fmt.Sprintf("len:%02d", (len(k.H.Subs)+4)/5*5))
-		if strings.HasSuffix(obs, "ing=blocked") {
+		if !strings.HasSuffix(obs, "ing=ok") {
 			// every further case with a held channel would wait for the watchdog again: one witness is enough
 			return errC11Stop
 		}
@@ -733,5 +912,12 @@ func runC11x(c *Ctx) error {
 			return err
 		}
 	}
-	return nil
+	// last (real HTTP connections disturb goroutine counting): the PRODUCTION webhook service and HTTP client against
+	// a target that flushes its 200 status first and writes the body later, webhook.max_tries = 3, 12 headers one
+	// after the other: the ADD events must keep arriving
+	k, err := c11Parse("c=H:late,R:ok/n=9001|g=1,486604799,1,1,1231006505,2083236893;f=;L2,1,12,545259519")
+	if err != nil {
+		return err
+	}
+	return do(k, "late-webhook-body")
 }
